@@ -37,6 +37,7 @@ type c13Params struct {
 	flat        bool
 	busyAtStart bool
 	slowWrites  int // up to this many transmissions block in the socket write (pause/2, pause, 2*pause)
+	lost        int // after the senders are done: a lost indication for that many messages, with a busy indication arriving while the batch is being repeated
 }
 
 func c13Run(p c13Params) func() {
@@ -114,6 +115,14 @@ func c13Run(p c13Params) func() {
 		for s := 0; s < p.senders; s++ {
 			done.Recv()
 		}
+		if p.lost > 0 {
+			mc.Sleep(200 * ms)
+			mc.Log(Note("lost"))
+			sock.Deliver(&knxnet.RoutingLost{Count: uint16(p.lost)})
+			// the busy indication arrives before / after the first / second repeat
+			mc.Sleep(mc.Duration(mc.Choose(3, mc.Free)) * (Pp + 1*ms))
+			sock.Deliver(&knxnet.RoutingBusy{WaitTime: mc.Duration([]int{50, 10}[mc.Choose(2, mc.Free)]) * ms, Control: 1})
+		}
 		mc.Sleep(1000 * ms)
 		r.Close()
 	}
@@ -143,8 +152,17 @@ func c13Oracle(p c13Params) func(tr *mc.Trace) []h.Violation {
 			w mc.Duration
 		}
 		var busies []busyev
+		const resendID = -7
+		lostSeen := false
+		lostAt := mc.Duration(0)
+		repeats := 0
+		_ = repeats
 		for _, e := range tr.Log {
 			switch x := e.V.(type) {
+			case Note:
+				if x == "lost" {
+					lostSeen, lostAt = true, e.T
+				}
 			case Call:
 				sends[x.ID] = &send{id: x.ID, call: e.T}
 			case Ret:
@@ -157,7 +175,18 @@ func c13Oracle(p c13Params) func(tr *mc.Trace) []h.Violation {
 					txs = append(txs, txev{e.T, id, x.T0})
 					if s := sends[id]; s != nil {
 						if s.hasTx {
-							bad("sent-twice", "message %d transmitted twice (%v and %v) without a lost indication", id, s.tx, e.T)
+							if !lostSeen {
+								bad("sent-twice", "message %d transmitted twice (%v and %v) without a lost indication", id, s.tx, e.T)
+							}
+							// a repeat by the re-sending goroutine: one pseudo-sender for the whole batch
+							txs[len(txs)-1].id = resendID
+							if rs := sends[resendID]; rs == nil {
+								sends[resendID] = &send{id: resendID, call: lostAt, tx: e.T, hasTx: true, hasRet: true}
+								repeats = 1
+							} else {
+								repeats++
+							}
+							continue
 						}
 						s.tx, s.hasTx = e.T, true
 					}
@@ -191,6 +220,29 @@ func c13Oracle(p c13Params) func(tr *mc.Trace) []h.Violation {
 			for _, s := range sends {
 				if s.call <= b.t && (!s.hasTx || s.tx >= b.t) {
 					member[s.id] = true
+				}
+			}
+			// the re-sending goroutine calls Send in a loop: while its batch is in progress it is
+			// (waiting) inside Send
+			delete(member, resendID)
+			if lostSeen && b.t >= lostAt {
+				for _, x := range txs {
+					if x.id == resendID && x.t > b.t {
+						member[resendID] = true
+					}
+				}
+			}
+			// the re-sending goroutine is one goroutine inside Send: one repeat after t_b is its due,
+			// any further repeat counts like a transmission by somebody who was not inside Send
+			if member[resendID] {
+				first := true
+				for i := range txs {
+					if txs[i].id == resendID && txs[i].t > b.t {
+						if !first {
+							txs[i].id = resendID - 1
+						}
+						first = false
+					}
 				}
 			}
 			// first transmission after t_b by a goroutine that was not inside Send at t_b
@@ -246,6 +298,8 @@ func init() {
 	register("both", &h.Scenario{Name: "C13-pause5-1x3-storm3", Prop: "C13", P: 1, F: 3, D: 1, Run: c13Run(d), Check: c13Oracle(d)})
 	sw := c13Params{pause: 20, senders: 2, perSender: 2, maxBusy: 1, waits: []int{10, 100}, slowWrites: 2}
 	register("both", &h.Scenario{Name: "C13-pause20-2x2-slow-writes", Prop: "C13", P: 1, F: 2, D: 1, Run: c13Run(sw), Check: c13Oracle(sw)})
+	lb := c13Params{pause: 20, senders: 1, perSender: 4, lost: 4}
+	register("both", &h.Scenario{Name: "C13-pause20-lost4-busy-during-repeats", Prop: "C13", P: 1, F: 0, D: 1, Run: c13Run(lb), Check: c13Oracle(lb)})
 	f := c13Params{pause: 20, senders: 8, perSender: 25, flat: true}
 	register("both", &h.Scenario{Name: "C13-flat-8x25", Prop: "C13", P: 0, F: 0, D: -1, Run: c13Run(f), Check: c13Oracle(f)})
 	t1 := c13Params{pause: 20, senders: 3, perSender: 2, maxBusy: 3, waits: []int{0, 10, 50, 100, 500}, busyAtStart: true}
